@@ -8,6 +8,7 @@ import MinizProof.Driver.Util
 import MinizProof.Spec.Inflate
 import MinizProof.Model.DeflStream
 import MinizProof.Model.InflStream
+import MinizProof.Model.Core
 namespace Driver
 open Spec
 
@@ -18,6 +19,8 @@ structure Acc where
   msgs     : Array String := #[]
   stats    : List (String × Nat) := []
   cacheKey : String := ""
+  /-- model decoders of the correspondence leg: id ↦ (registers, output buffer) -/
+  decs     : List (Nat × Model.Core.Regs × Array UInt8 × Array UInt8 × Nat) := []
   cacheDec : Option (String × Array UInt8 × Nat × Nat) := none   -- verdict, out, bytes, cmf
 
 def Acc.bump (a : Acc) (k : String) (n : Nat := 1) : Acc :=
@@ -345,6 +348,59 @@ def opIfl (a : Acc) (ln : Nat) (l : Line) : Acc := Id.run do
   | .contract => a := a.diff ln l "contract" "decoder reported more than it was offered"
   return a
 
+def ringFill (size seed : Nat) : Array UInt8 :=
+  Array.ofFn (n := size) fun i => UInt8.ofNat ((i.val % 256) * 31 + seed)
+
+/-- `INEW`: a fresh decoder object and its output buffer (filled with the harness's known pattern). -/
+def opInew (a : Acc) (l : Line) : Acc :=
+  let id := l.nat "id"
+  let buf := ringFill (l.nat "outlen") (l.nat "fill")
+  { a with decs := (id, ({} : Model.Core.Regs), buf, #[], 0) :: (a.decs.filter (·.1 != id)).take 4 }
+
+/-- `ICALL`: one real `decompress_with_limit` call replayed through the decoder model
+    (`Model.Core.decompress`) on the model's own copy of the output buffer and with the model's own
+    input cursor: the model is offered the stream up to the same END as the implementation. Status,
+    bytes written, the written bytes and the running checksum must agree on every call; the
+    cumulative input position must agree exactly whenever no stored-block byte is parked in a
+    register (the slow-path model never parks one; the implementation may hold one byte it has
+    already taken from its read-ahead bit buffer, so the positions may differ by one at a
+    has-more-output exit inside a stored block, and must be equal again at every other exit). -/
+def opIcall (a : Acc) (ln : Nat) (l : Line) : Acc := Id.run do
+  let id := l.nat "id"
+  match a.decs.find? (·.1 == id) with
+  | none => return a.diff ln l "decoder" "unknown decoder id"
+  | some (_, regs, buf, zbuf, mpos) =>
+    let chunk := l.bytes "in"
+    let ipos := l.nat "ipos"
+    -- drop the list's reference first so that the model updates the buffer in place
+    let a := { a with decs := a.decs.filter (·.1 != id) }
+    -- the stream as far as the implementation has been offered it
+    let zbuf := (zbuf.extract 0 ipos) ++ chunk
+    let inp := zbuf.extract mpos zbuf.size
+    let res := Model.Core.decompress regs inp buf (l.nat "pos") (l.nat "budget") (l.nat "flags")
+    let mpos' := mpos + res.consumed
+    let mut a := { a with decs := (id, res.r, res.out, zbuf, mpos') :: a.decs }
+    a := a.bump "icall"
+    a := a.bump s!"icall_status_{res.status}"
+    let st := l.int "st"
+    let w := l.nat "w"
+    let ipos' := ipos + l.nat "c"
+    if res.status != st then
+      a := a.diff ln l "status" s!"model status {res.status} (state {res.r.state}, position {mpos'}, written {res.written}) vs implementation {st} (position {ipos'}, written {w})"
+    else
+      if res.written != w then a := a.diff ln l "written" s!"model wrote {res.written}, implementation {w} (status {st})"
+      else
+        let wr := l.bytes "wr"
+        let mine := res.out.extract (l.nat "pos") (l.nat "pos" + w)
+        if !sameBytes mine wr then a := a.diff ln l "bytes" s!"written bytes differ at offset {firstDiff mine wr} of {w}"
+      if st ≥ 0 then
+        if mpos' != ipos' then
+          if st == 2 && mpos' + 1 == ipos' then a := a.bump "icall_parked_byte"
+          else a := a.diff ln l "consumed" s!"model input position {mpos'}, implementation {ipos'} (status {st})"
+      if l.has "adler" && st ≥ 0 && res.r.checkAdler32 != l.nat "adler" then
+        a := a.diff ln l "adler" s!"model checksum {res.r.checkAdler32}, implementation {l.nat "adler"}"
+    return a
+
 def dispatch (a : Acc) (ln : Nat) (l : Line) : Acc :=
   match l.op with
   | "ENC" => opEnc a ln l
@@ -356,6 +412,8 @@ def dispatch (a : Acc) (ln : Nat) (l : Line) : Acc :=
   | "BB" => opBb a ln l
   | "DFL" => opDfl a ln l
   | "IFL" => opIfl a ln l
+  | "INEW" => opInew a l
+  | "ICALL" => opIcall a ln l
   | "" => a
   | "#" => a
   | _ => a.bump ("unknown_op_" ++ l.op)
